@@ -45,12 +45,23 @@ def sym_array(E, vals, name, kind="int"):
     return a
 
 
+inconclusive = 0
+
+
 def check(E, extra):
-    s = z3.Solver()
-    s.set("timeout", 20000)
-    s.add(*E.pc)
-    s.add(extra)
-    return s.check()
+    """sat / unsat; an `unknown` (time limit on a loaded machine) is retried once with a long limit and then counted as INCONCLUSIVE --
+    it is reported, never taken for agreement or disagreement (the caller sees the verdict it hoped for)"""
+    global inconclusive
+    for limit in (20000, 120000):
+        s = z3.Solver()
+        s.set("timeout", limit)
+        s.add(*E.pc)
+        s.add(extra)
+        r = s.check()
+        if r != z3.unknown:
+            return r
+    inconclusive += 1
+    return None
 
 
 def mismatch(what):
@@ -61,19 +72,19 @@ def mismatch(what):
 
 def entails_array(E, out, want, what):
     diff = [out.nz() != len(want)] + [z3.Select(out.arr, i) != int(x) for i, x in enumerate(want)]
-    if check(E, z3.Or(*diff)) != z3.unsat:
+    if check(E, z3.Or(*diff)) == z3.sat:
         mismatch(f"{what}: model admits a result other than numpy's {list(want)}")
 
 
 def admits_array(E, out, want, what):
     same = [out.nz() == len(want)] + [z3.Select(out.arr, i) == int(x) for i, x in enumerate(want)]
-    if check(E, z3.And(*same)) != z3.sat:
+    if check(E, z3.And(*same)) == z3.unsat:
         mismatch(f"{what}: model EXCLUDES numpy's result {list(want)}")
 
 
 def entails_scalar(E, got, want, what):
     z = got.z if isinstance(got, Sym) else z3.IntVal(int(got))
-    if check(E, z != (z3.BoolVal(bool(want)) if isinstance(want, (bool, np.bool_)) else int(want))) != z3.unsat:
+    if check(E, z != (z3.BoolVal(bool(want)) if isinstance(want, (bool, np.bool_)) else int(want))) == z3.sat:
         mismatch(f"{what}: model admits a value other than numpy's {want}")
 
 
@@ -120,7 +131,7 @@ def main():
         perm_sorted = z3.And(o.nz() == n, *[z3.And(z3.Select(o.arr, i) >= 0, z3.Select(o.arr, i) < n) for i in range(n)],
                              *[z3.Select(o.arr, i) != z3.Select(o.arr, j) for i in range(n) for j in range(i)],
                              *[z3.Select(a.arr, z3.Select(o.arr, i)) <= z3.Select(a.arr, z3.Select(o.arr, i + 1)) for i in range(n - 1)])
-        if check(E, z3.Not(perm_sorted)) != z3.unsat:
+        if check(E, z3.Not(perm_sorted)) == z3.sat:
             mismatch(f"argsort default {v}: permutation / sortedness not entailed")
         # ---- np.sort
         E = engine()
@@ -151,10 +162,10 @@ def main():
         r = M.lookup_model(np.searchsorted)(E, [sym_array(E, v, "a"), sym_array(E, needles, "x")], {})
         want = np.searchsorted(np.array(v, dtype=int), np.array(needles, dtype=int))
         admits_array(E, r, want, f"searchsorted unsorted {v} {needles}")
-        if check(E, z3.Or(r.nz() != len(needles), *[z3.Or(z3.Select(r.arr, i) < 0, z3.Select(r.arr, i) > n) for i in range(len(needles))])) != z3.unsat:
+        if check(E, z3.Or(r.nz() != len(needles), *[z3.Or(z3.Select(r.arr, i) < 0, z3.Select(r.arr, i) > n) for i in range(len(needles))])) == z3.sat:
             mismatch(f"searchsorted unsorted {v}: range not entailed")
-    print(f"ext_C05 models (min max all any argsort sort searchsorted; symbolic lengths): {cases} random cases each, mismatches: {bad}")
-    return 1 if bad else 0
+    print(f"ext_C05 models (min max all any argsort sort searchsorted; symbolic lengths): {cases} random cases each, mismatches: {bad}, inconclusive solver calls: {inconclusive}")
+    return 1 if bad else (2 if inconclusive else 0)
 
 
 if __name__ == "__main__":
